@@ -82,8 +82,9 @@ OpEffect(r, st, op, n) ==
     ELSE IF op = 1 THEN
         [st EXCEPT !.qp = @ + n,
                    !.obs = Append(@, <<st.rp, "ins", n, Code(r.seq, st.qp + 1, n), mq, 0>>),
-                   !.phase = IF Phaseable(st.rp)
-                             THEN SetPhase(@, st.rp :> <<"ins", n, Code(r.seq, st.qp + 1, n)>>) ELSE @]
+                   \* the phase record stores an insertion at the base it FOLLOWS (the database anchor)
+                   !.phase = IF Phaseable(st.rp - 1)
+                             THEN SetPhase(@, (st.rp - 1) :> <<"ins", n, Code(r.seq, st.qp + 1, n)>>) ELSE @]
     ELSE IF op = 4 THEN [st EXCEPT !.qp = @ + n]
     ELSE IF op \in MT THEN
         LET one(i) == LET s == st.rp + i - 1
@@ -197,7 +198,7 @@ Shows(r, s) ==
      ELSE LET b == BaseAt(r, s) IN {IF Mapped(s) /\ b # RefAt(s) THEN <<"sub", RefAt(s), b>> ELSE <<"ref", 0, 0>>})
     \cup {<<"del", r.cigar[j][2], 0>> : j \in {x \in DOMAIN r.cigar : r.cigar[x][1] = 2 /\ r.start + RefPrefix(r.cigar, x - 1) = s}}
     \cup {<<"ins", r.cigar[j][2], Code(r.seq, QPrefix(r.cigar, j - 1) + 1, r.cigar[j][2])>> :
-              j \in {x \in DOMAIN r.cigar : r.cigar[x][1] = 1 /\ r.start + RefPrefix(r.cigar, x - 1) = s}}
+              j \in {x \in DOMAIN r.cigar : r.cigar[x][1] = 1 /\ r.start + RefPrefix(r.cigar, x - 1) - 1 = s}}
 FragShows(rs, f, s) == UNION {Shows(rs[i], s) : i \in {x \in Elig(rs) : rs[x].name = f}}
 
 (* splitting / relabelling match runs *)
